@@ -161,11 +161,17 @@ def build_world(ch, options):
         def emit(a: Asm):
             a.op("CALLDATASIZE").push(0).push(0x80).op("CALLDATACOPY")
             a.push(0x20).push(0x200).op("CALLDATASIZE").push(0x80).push(0).push(to).push(0xFFFF).op("CALL")
+            if assume_ok:
+                # vm.assume(success): were a failed assertion to unwind as an ordinary failed call, this would hide it
+                a.op("DUP1").push(0x304).op("MSTORE")
+                a.push(int.from_bytes(cheats_ref.ASSUME, "big") << 224).push(0x300).op("MSTORE")
+                a.push(0).push(0).push(0x24).push(0x300).push(0).push(cheats_ref.VM).push(0xFFFF).op("CALL").op("POP")
             a.push(1).op("SSTORE")  # the success flag the caller saw
             a.push(0x200).op("MLOAD").push(2).op("SSTORE")
             a.push(0xB2).push(0).op("MSTORE").push(0x20).push(0).op("RETURN")
         return emit
 
+    assume_ok = depth > 0 and ch.chance(0.3, "w.assume_ok")
     accounts = {}
     addrs = [gen.TARGET] + [0x2000 + i for i in range(depth)]
     for lvl, addr in enumerate(addrs):
